@@ -109,7 +109,8 @@ func c06Body(r *vlib.Run) int {
 		}
 	})
 	var absent sync.WaitGroup
-	absent.Add(2)
+	absent.Add(3)
+	go func() { defer absent.Done(); c06ManyFiles(r) }()
 	go func() { defer absent.Done(); c06Absent(r) }()
 	go func() { defer absent.Done(); c06SlotsBusy(r) }()
 	c06Provoke(r)
@@ -593,6 +594,74 @@ func c06SlotsBusy(r *vlib.Run) {
 // matches nothing, or the user may not read it). "Any number of files" includes
 // none: the run must account for the files of the other servers and terminate
 // (it used to hang for ever: fixed: property=C06 ... no file to read).
+// c06ManyFiles: one session over more files than the aggregator's queue of registered files holds (100), all of them
+// readable at once (MaxConcurrentCats 400), one of them slow to read (long lines): the queue is full while the
+// aggregator rotates from a momentarily empty file to the next. Every line must be counted and the run must end.
+func c06ManyFiles(r *vlib.Run) {
+	fl, err := startFleet(r, "c06many", 1, map[string]interface{}{"MaxConcurrentCats": 400, "MaxConnections": 50}, nil, "error")
+	if err != nil {
+		r.Inconclusive("fleet-start")
+		return
+	}
+	defer fl.Stop()
+	for k := 0; k < r.N(1, 3); k++ {
+		dir := fmt.Sprintf("many%d", k)
+		want := 0
+		var b bytes.Buffer
+		pad := strings.Repeat("x", 20000)
+		for q := 1; q <= 400; q++ {
+			b.WriteString(c06Line("big", 0, q) + "|pad=" + pad + "\n")
+			want++
+		}
+		fl.WriteFile(0, filepath.Join(dir, "a-big.log"), b.Bytes())
+		nSmall := 130 + 50*k
+		for f := 0; f < nSmall; f++ {
+			b.Reset()
+			for q := 1; q <= 3; q++ {
+				b.WriteString(c06Line(fmt.Sprintf("f%d", f), 0, q) + "\n")
+				want++
+			}
+			fl.WriteFile(0, filepath.Join(dir, fmt.Sprintf("s%03d.log", f)), b.Bytes())
+		}
+		out := filepath.Join(fl.Home, fmt.Sprintf("many-%d.csv", k))
+		os.Remove(out)
+		query := "from CONS select g,count($line) group by g interval 2 outfile " + out
+		args := append(fl.ClientArgs(), "--logger", "stdout", "--logLevel", "error", "--noColor", "--files", filepath.Join(dir, "*.log"), "--query", query)
+		start := time.Now()
+		res := vlib.RunCmd(vlib.Cmd{Path: r.Bin("dmap"), Args: args, Env: fl.ClientEnv(), Dir: fl.Home, Watchdog: 240 * time.Second})
+		r.Eval(fmt.Sprintf("many-files|%d", nSmall+1))
+		r.Count("runs_over_more_files_than_the_aggregator_queue_holds", 1)
+		r.Max("many_files_run_longest_s", int(time.Since(start).Seconds()))
+		got := 0
+		if bb, err := os.ReadFile(out); err == nil {
+			_, rows := mq.ParseCSV(string(bb))
+			for _, row := range rows {
+				if len(row) == 2 {
+					c, _ := strconv.Atoi(row[1])
+					got += c
+				}
+			}
+		}
+		os.Remove(out)
+		os.Remove(out + ".query")
+		os.RemoveAll(filepath.Join(fl.Servers[0].Spec.Dir, dir))
+		detail := map[string]interface{}{"scenario": fmt.Sprintf("one session over %d files at once (queue of 100), one of them with 20 KB lines", nSmall+1), "lines_in_result": got, "want": want,
+			"hung": res.Hung, "timed_out": res.TimedOut, "exit": res.Exit, "stdout": vlib.Trunc(string(res.Stdout), 600)}
+		switch {
+		case res.Hung:
+			r.Violation("dmap-did-not-terminate", detail)
+		case res.TimedOut:
+			r.Inconclusive("dmap-watchdog")
+		case got < want:
+			r.Violation("lines-missing-from-result", detail)
+		case got > want:
+			r.Violation("lines-counted-more-than-once", detail)
+		case res.Exit != 0:
+			r.Violation("exit-status", detail)
+		}
+	}
+}
+
 func c06Absent(r *vlib.Run) {
 	fl, err := startFleet(r, "c06abs", 3, map[string]interface{}{"MaxConcurrentCats": 2, "MaxConnections": 50,
 		"Permissions": map[string]interface{}{"Default": []string{"^/.*", "!.*/denied/.*"}}}, nil, "error")
